@@ -4,7 +4,8 @@
    image is ANY pair of surviving lengths (every cut point of the log, every cut point of the index, in any combination:
    the write order between the two files is not assumed).  The tie to the code: the check cuts the real files at these
    lengths, starts the real server on them and compares what it exposes with `recover_render`. *)
-From IggyV Require Import Base.Tactics Base.ListX Model.Crash Proofs.CrashProofs.
+From IggyV Require Import Base.Tactics Base.ListX Model.Crash Proofs.CrashProofs Model.Part Model.PartCrash Proofs.PartBasics Proofs.PartHistory Proofs.PartCounts
+  Proofs.CacheHistory Proofs.OffsetsHistory Proofs.ReadExact Proofs.ReadPart Proofs.ReadHistory Proofs.ExpiryBasics Proofs.ExpiryHistory Proofs.CrashPart.
 Open Scope N_scope.
 
 (* recovery leaves exactly the files of the first k batches - a gap-free, duplicate-free prefix, no torn bytes - where k is the
@@ -30,7 +31,55 @@ Proof. exact append_after_recovery. Qed.
 Theorem C04_recovery_idempotent : forall bs im, i_index im <= ENTRY * nlen bs -> recover bs (recover bs im) = recover bs im.
 Proof. exact recover_idempotent. Qed.
 
+(* PROVED, on the PARTITION model and at history level (Model/PartCrash.v, Proofs/CrashPart.v): take any state the partition can
+   reach (any operation list: sends, flushes, saves, restarts, purges, retention by expiry and size, ...), crash it at any instant -
+   the unsaved buffers are lost, of the last segment's log file the first a batches survive, of its index file the first b
+   entries, for EVERY a and b (a torn batch or entry counts as absent; which of the two files is ahead is not assumed) - and
+   start again (drop_incomplete_tail keeps min a b of both, then the ordinary load).  Then
+   (1) what the partition stores is again ONE gap-free, duplicate-free run from the same earliest offset,
+   (2) it is a PREFIX of what was stored before the crash (nothing invented, nothing reordered, no hole),
+   (3) the next offset to be assigned is the one right after it (appends continue directly), and
+   (4) every batch of the last segment whose log bytes and index entry had both been written completely is still there, as is
+       everything in the closed segments.
+   Side conditions: those of ExpiryHistory.history_E0 (segment size > 0, offsets and log files below 2^32, send timestamps
+   non-zero and never going backwards).  Wait-confirmation; the files of closed segments are taken as complete. *)
+Theorem C04_partition_crash : forall ops c t0 now a b, 0 < c_seg c -> times_ok 0 ops -> Forall bounds_ok (prun_states (c, part_new c t0) ops) ->
+  let c' := fst (pfinal (c, part_new c t0) ops) in let p := snd (pfinal (c, part_new c t0) ops) in
+  let p' := crash_restart c' now a b p in
+  contig (first_start p') (part_all p') /\ NoDup (map m_off (part_all p')) /\
+  (exists lost, part_all p = part_all p' ++ lost) /\ first_start p' = first_start p /\
+  abase p' = first_start p' + nlen (part_all p') /\
+  (forall d, (d <= a)%nat -> (d <= b)%nat -> exists init l rest, p_segs p = init ++ [l] /\
+       part_all p' = flat_map seg_all init ++ log_msgs (firstn d (s_log l)) ++ rest).
+Proof.
+  intros ops c t0 now a b Hseg Ht Hb. cbn zeta. destruct (history_E0 ops c t0 Hseg Ht Hb) as [HE Hseg']. pose proof (e_R _ _ _ HE) as HR.
+  destruct (crash_restart_J _ now a b _ Hseg' HR) as (HJ' & [init [l [E Ep]]] & Ef & Ea).
+  split; [apply (j_contig _ HJ')|]. split; [apply (contig_nodup _ _ (j_contig _ HJ'))|]. split; [eexists; exact Ep|]. split; [exact Ef|].
+  split; [rewrite Ef; exact Ea|]. intros d Ha Hd. destruct (crash_keeps_written _ now a b _ d Hseg' HR Ha Hd) as [i0 [l0 [E0 [rest Er]]]].
+  exists i0, l0, rest. split; assumption.
+Qed.
+
+(* an ordinary history (three batches on disk, one message buffered), a crash that tears the last batch out of the log while
+   its index entry survived - and one that leaves only the first index entry -, and what comes back *)
+Example C04_partition_crash_nonvacuous :
+  let c := {| c_req := 2; c_seg := 10000; c_cache := false; c_idx := true; c_dedup := false; c_expiry := None; c_max := None; c_del_oldest := false |} in
+  let ops := [OSend 10 [(1, 10, 0); (2, 10, 0)]; OSend 11 [(3, 40, 0)]; OSend 13 [(4, 10, 0); (5, 10, 0)]; OSend 14 [(6, 10, 0); (7, 10, 0)]; OSend 15 [(8, 1, 0)]] in
+  let p := snd (pfinal (c, part_new c 1) ops) in
+  0 < c_seg c /\ times_ok 0 ops /\ Forall bounds_ok (prun_states (c, part_new c 1) ops) /\
+  map m_off (part_all p) = [0; 1; 2; 3; 4; 5; 6; 7] /\ map (fun s => length (s_log s)) (p_segs p) = [3]%nat /\
+  map m_off (part_all (crash_restart c 20 2 3 p)) = [0; 1; 2; 3; 4] /\ abase (crash_restart c 20 2 3 p) = 5 /\
+  map m_off (part_all (crash_restart c 20 3 1 p)) = [0; 1].
+Proof.
+  intros c ops p. split; [reflexivity|]. split; [cbn; repeat split; lia|]. split; [|vm_compute; repeat split; reflexivity].
+  apply Forall_forall. intros q Hq.
+  assert (Hall : forallb (fun q => (abase q <=? B32) && size_okb q) (prun_states (c, part_new c 1) ops) = true) by (vm_compute; reflexivity).
+  rewrite forallb_forall in Hall. specialize (Hall q Hq). apply andb_true_iff in Hall. destruct Hall as [H1 H2].
+  split; [apply N.leb_le; exact H1 | apply size_okb_ok; exact H2].
+Qed.
+
 Print Assumptions C04_recover_is_prefix.
 Print Assumptions C04_keeps_completed_writes.
 Print Assumptions C04_continues_after_prefix.
 Print Assumptions C04_recovery_idempotent.
+Print Assumptions C04_partition_crash.
+Print Assumptions C04_partition_crash_nonvacuous.
